@@ -62,6 +62,19 @@ CLAIMED["C05"] = dict(
     technique="Coq proof (failure prefix / purity / flag) + fault enumeration correspondence",
     design="4/C05")
 
+CLAIMED["C08"] = dict(
+    text=("Gallina models of daglish's traversals over a heap (un-memoized pre-order with paths, memoized "
+          "iteration with and without internables, all-paths query, identity rebuild as an instance of the "
+          "memoized traversal, cycle detection on arbitrary heaps); theorems on soundness/completeness of paths "
+          "and exactly-once visiting; evaluated in Coq against daglish.iterate (3 modes), collect_paths_by_id and "
+          "MemoizedTraversal.run(map_children); the Python oracle additionally checks State.get_all_paths and the "
+          "four daglish_legacy entry points against an independent path enumeration, follow_path soundness, "
+          "cyclic structures and a user-registered node type with temporaries."),
+    note=COMMON_NOTE + " Known finding: daglish_legacy.memoized_traverse raises KeyError on node types whose "
+         "flatten creates temporaries.",
+    technique="Coq proof (path soundness/completeness, memoized once) + vm_compute correspondence on 10 entry points",
+    design="4/C08")
+
 PENDING_REASON = "check not built yet in this session (work in progress; see DESIGN.md section 4)"
 
 
